@@ -232,6 +232,12 @@ func (m *mat) discover(T types.Type, lv []*big.Int, src []*Term) {
 		if es == 0 {
 			return
 		}
+		if ln.Sign() < 0 || cp.Cmp(ln) < 0 || off.Sign() < 0 {
+			if src != nil && src[2].IntConst() == nil {
+				panic(needConstraint{And(Le(Int(0), src[1]), Le(Int(0), src[2]), Le(src[2], src[3]))})
+			}
+			m.fail("ill-formed slice header in model")
+		}
 		if new(big.Int).Mod(off, big.NewInt(es)).Sign() != 0 || (off.IsInt64() && off.Int64()/es > 4096) {
 			if src != nil && src[1].IntConst() == nil {
 				panic(needConstraint{Eq(src[1], Int(0))})
